@@ -405,7 +405,7 @@ def eval_case(ctx: Ctx, case: dict, stats: bool = False):
                     quals += "+margins"
                 if st0["cx"] >= w or st["cx"] >= w:
                     quals += "+pendingwrap"
-                if not viol:
+                if not any(x[0].startswith("tracked") for x in viol):
                     viol.append((f"tracked!=cursor:{op['op']}{quals}", idx,
                                  {"tracked": tracked, "cursor": true_cur, "size": [w, h], "step": idx, "op": op}))
             if prints_placeholder(op, case) and err == "ok" and op.get("rows") is not None and op.get("cols") is not None \
@@ -430,14 +430,14 @@ def eval_case(ctx: Ctx, case: dict, stats: bool = False):
                             ctx.count("put:right-edge-NEL")
                     else:
                         ctx.count("put:nothing-to-print")
-                if got != exp and not viol:
+                if got != exp and not any(x[0].startswith("placement") for x in viol):
                     missing = sorted(set(exp) - set(got))[:4]
                     extra = sorted(set(got) - set(exp))[:4]
                     wrong = sorted(p for p in set(got) & set(exp) if got[p] != exp[p])[:4]
                     viol.append((f"placement-misplaced:{op['op']}", idx,
                                  {"cursor_before": [st0["cx"], st0["cy"]], "tracked_before": "see previous step", "size": [w, h],
                                   "missing": missing, "extra": extra, "wrong_cell_content": wrong, "op": op}))
-            if viol and not stats:
+            if len(viol) >= 2 and not stats:
                 break
         if backend == "pty":
             if not pt.wait_seen():
